@@ -389,6 +389,8 @@ var c14Locations = []string{
 	"javascript:alert(1) ", "java\tscript:alert(1)", "java\nscript:alert(1)", "\x01javascript:alert(1)", "javascript&#58;alert(1)", "//evil.example/x", "/relative", "relative", "", "https://ok.example/%zz", "https://[::1]:8443/a", "https://user:pw@ok.example/a",
 	"https://ok.example/a?x=1&y=2#f", "ftp://ok.example/a", "file:///etc/passwd", "urn:x:y", "mailto:a@b", "https:/ok.example", "https:ok.example", "http:javascript:alert(1)", "jAvAsCrIpT://ok.example/%0aalert(1)", "https://ok.example/\"><script>",
 	"javascript://%0aalert(1)", "blob:https://x/1", "about:blank", "view-source:javascript:alert(1)", " javascript:alert(1)", "ｊavascript:alert(1)", "https://ok.example/ünï",
+	// http(s) URLs wrapped in white space or separators: a browser would skip the junk, a URL is what is left after it
+	" https://ok.example/a", "https://ok.example/a ", "\n\t\thttps://ok.example/a\n\t", "\u2028https://ok.example/a", "\u00a0https://ok.example/a", "\u3000http://ok.example/a\u3000", "\x0chttps://ok.example/a", "\rhttps://ok.example/a\r\n",
 }
 
 var c14MdBindings = []string{saml.HTTPPostBinding, saml.HTTPRedirectBinding, saml.HTTPArtifactBinding, saml.SOAPBinding, saml.SOAPBindingV1, "urn:mace:shibboleth:1.0:profiles:AuthnRequest", "urn:unknown", "", "<absent>"}
@@ -417,6 +419,9 @@ func xmlAttrEscape(s string) string {
 // c14Twin selects how the (hostile) Location is spelled next to a harmless one: a namespace-qualified attribute of the same
 // local name is a different attribute to XML, but a decoder that matches by local name may let it shadow the plain one.
 var c14Twin = ""
+
+// c14IndexAttrs is what an indexed endpoint carries after its locations (also in malformed spellings).
+var c14IndexAttrs = ` index="1" isDefault="true"`
 
 func c14MdDoc(slot c14Slot, binding, loc string, respLoc *string, nested bool, entityID string) []byte {
 	var b strings.Builder
@@ -450,7 +455,7 @@ func c14MdDoc(slot c14Slot, binding, loc string, respLoc *string, nested bool, e
 		fmt.Fprintf(&b, ` ResponseLocation="%s"`, xmlAttrEscape(*respLoc))
 	}
 	if slot.indexed {
-		b.WriteString(` index="1" isDefault="true"`)
+		b.WriteString(c14IndexAttrs)
 	}
 	b.WriteString(`/>`)
 	fmt.Fprintf(&b, `</%s></EntityDescriptor>`, slot.descriptor)
@@ -526,6 +531,12 @@ func c14Metadata(c *core.Ctx, mine func() bool) {
 				if knownBinding(e.binding) {
 					if sc := htmlmon.BrowserScheme(val); sc != "http" && sc != "https" {
 						c.Violation(fmt.Sprintf("C14/metadata/non-http-scheme/%s/%s", e.where, which), fmt.Sprintf("%s of %s with binding %s survived parsing (%s) as %q (browser scheme %q) (%s)", which, e.where, shortAlg(e.binding), via, truncate(val, 80), sc, desc), replay)
+						return
+					}
+					// "an http or https URL": also for a URL library, not only for a browser that skips leading junk; a stored
+					// value that only becomes a URL after trimming is not one (the form templates refuse it as an action)
+					if u, perr := url.Parse(val); perr != nil || (!strings.EqualFold(u.Scheme, "http") && !strings.EqualFold(u.Scheme, "https")) {
+						c.Violation(fmt.Sprintf("C14/metadata/not-a-url/%s/%s", e.where, which), fmt.Sprintf("%s of %s with binding %s survived parsing (%s) as %q, which is not an absolute http(s) URL (%v) (%s)", which, e.where, shortAlg(e.binding), via, truncate(val, 80), perr, desc), replay)
 						return
 					}
 				} else if val != "" {
@@ -650,6 +661,30 @@ func c14Metadata(c *core.Ctx, mine func() bool) {
 				if mine() { // hostile ResponseLocation next to a good Location
 					l := loc
 					run(slot, b, "https://ok.example/a", &l, c.Rng.Intn(4) == 0)
+				}
+			}
+		}
+	}
+	// indexed endpoints whose index / isDefault attributes are malformed, after a hostile Location
+	for _, ia := range []string{` index="one" isDefault="true"`, ` index="1" isDefault="yes"`, ` index="" isDefault=""`, ` index="1.0"`, ` index="99999999999999999999"`, ` isDefault="TRUE" index="-1"`, ` index=" 1"`} {
+		for _, slot := range c14Slots {
+			if !slot.indexed {
+				continue
+			}
+			for bi, b := range c14MdBindings {
+				for li, loc := range c14Locations {
+					if c.Quick() && (bi+li)%3 != 0 {
+						continue
+					}
+					if !mine() {
+						continue
+					}
+					c14IndexAttrs = ia
+					run(slot, b, loc, nil, false)
+					l := loc
+					run(slot, b, "https://ok.example/a", &l, false)
+					c14IndexAttrs = ` index="1" isDefault="true"`
+					c.Count("metadata_documents_with_malformed_index_attributes")
 				}
 			}
 		}
